@@ -25,6 +25,7 @@ Inductive stmt :=
                                              with Action.continue_task(task_id=id): body *)
 | SReenter (h : nat) (body : list stmt)  (* with h.context(): body, h being an enclosing action *)
 | SFinishAgain (h : nat) (exc : option exn)
+| SRawWrite (m : fields) (ser : option mser)   (* Logger().write(dict, serializer) with a caller-held dict *)
 | SSpawn (c' : nat) (body : list stmt).  (* child execution context inheriting the current action (asyncio task), run to completion *)
 
 Definition probe (c : nat) : list (nat * op) := [(c, OProbe)].
@@ -80,6 +81,7 @@ Fixpoint compile_stmt (c : nat) (st : stmt) {struct st} : list (nat * op) * opti
       let '(bops, bout) := compile c body in
       ([(c, OCtxEnter h)] ++ probe c ++ bops ++ [(c, OCtxExit)], bout)
   | SFinishAgain h exc => ([(c, OFinish h exc)], None)
+  | SRawWrite m ser => ([(c, ORawWrite m ser)], None)
   | SSpawn c' body =>
       let '(bops, bout) := compile c' body in
       ([(c, OSpawn c')] ++ probe c' ++ bops ++ probe c', None)
@@ -97,13 +99,21 @@ Inductive behave :=
 | BOnStart
 | BOnReports                         (* eliot:destination_failure messages *)
 | BNotReports
-| BOnAtom (a : atom).                (* messages holding the value VAtom a (e.g. not JSON-encodable) *)
+| BOnAtom (a : atom)                 (* messages holding the value VAtom a *)
+| BOnAtoms (l : list atom)           (* messages holding one of these values *)
+| BFile (l : list atom).             (* a FileDestination: fails on the not JSON-encodable values l and on
+                                        integers outside orjson's range [-2^63, 2^64) *)
 
 Definition has_status (m : msg) (f : status -> bool) : bool :=
   match fget K_status m with Some (VStatus st) => f st | _ => false end.
 
 Definition has_atom (a : atom) (m : msg) : bool :=
   existsb (fun kv => match snd kv with VAtom b => Pos.eqb a b | _ => false end) m.
+
+Definition int_out_of_range (m : msg) : bool :=
+  existsb (fun kv => match snd kv with
+                     | VInt z => orb (Z.ltb z (- 9223372036854775808)) (Z.leb 18446744073709551616 z)
+                     | _ => false end) m.
 
 Definition behave_fn (b : behave) (e : exn) : nat -> msg -> option exn :=
   fun n m =>
@@ -118,6 +128,8 @@ Definition behave_fn (b : behave) (e : exn) : nat -> msg -> option exn :=
       | BOnReports => is_report m
       | BNotReports => negb (is_report m)
       | BOnAtom a => has_atom a m
+      | BOnAtoms l => existsb (fun a => has_atom a m) l
+      | BFile l => orb (existsb (fun a => has_atom a m) l) (int_out_of_range m)
       end in
     if fails then Some e else None.
 
